@@ -108,3 +108,44 @@ CLAIMS['C08'] = dict(
          "are only checked with a stated bound on the real code (planted structures; UiO-66 files in thorough).",
     note="Level 'other': reversibility rests on completeness of the search (bounded). norm() uninterpreted with norm(0)=0.",
     technique='contract-based deductive verification of the shared-atom map (loop invariants, z3) + bounded self-replacement / A-B-A workflows')
+CLAIMS['C16'] = dict(
+    category='proof',
+    text="Atoms.load_cml is executed symbolically against an abstract parsed document (two symbolic lists of attribute dictionaries of any "
+         "length, unique atom ids, every bond reference naming an atom): proved that the constructor receives one element and one x3/y3/z3 "
+         "triple per atom entry in document order, one bond per bond entry joining the document positions of the referenced ids (dict "
+         "comprehension and lookups modelled with witness functions), one bond type per bond, and that no well-formed document makes it "
+         "raise -- in particular zero bonds (the pre-fix zip(*[]) unpack is refuted with the replayed input n_bonds=0). The real XML parser, "
+         "path vs open file and id spellings are exercised on 160 generated documents.",
+    note="Assumed: ElementTree returns elements in document order; float() and str.split() uninterpreted; np.array([x,y,z]).T stacks columns.",
+    technique='contract-based deductive verification against an abstract parser result (own VC generator, z3 E-matching) + bounded generated documents')
+CLAIMS['C17'] = dict(
+    category='other',
+    text="max_bond_length is proved equal to r1 + r2 + 0.45*[a non-metal is involved] for all element pairs of the real COVALENT_RADII / "
+         "NON_METALS tables (symbolic element names) and symmetric. The pair enumeration i<j of detect_bonds, the use of the 27 neighbour "
+         "images and shift / reorder invariance are only checked with a stated bound on the real code against an independent minimum-image "
+         "computation over 125 images (9 409 cutoff pairs exhaustively; ~430 generated structures with pairs at cutoff +/- 1e-6 through "
+         "faces, edges and corners).",
+    note="Level 'other': the loops of detect_bonds are not under invariants yet; bridge lemma G2 (27 images suffice for widths > cutoff) assumed.",
+    technique='contract-based deductive verification of the cutoff rule (z3) + bounded comparison with an independent minimum-image rule')
+CLAIMS['C19'] = dict(
+    category='other',
+    text="Proved for all inputs: helpers.typekey returns the tuple or its reverse, is reversal invariant and two tuples have the same key iff "
+         "they are equal up to reversal (arities 2-4, relational obligations over the product of the path sets of three symbolic runs of "
+         "the real function); rough_uff.delete_if_all_in_set removes exactly the tuples wholly inside the exclusion set (loop invariant, "
+         "widths 2-4). Enumeration completeness of calc_angles / calc_dihedrals (networkx), first-seen numbering, coefficients per key, "
+         "dropping of undefined torsions, renaming / permutation invariance and the retyping tables are only checked with a stated bound: "
+         "all labelled trees up to 5 nodes, rings, ring assemblies, a metal node, 3 type assignments, renamings, all 221 UFF types.",
+    note="Level 'other': networkx traversal is not modelled, so the enumeration clauses are bounded. Known finding: UFF types Du and Lw6+3 have "
+         "no mass entry (retype raises).",
+    technique='contract-based deductive verification of the canonical key and the exclusion filter (z3) + bounded graph enumeration')
+CLAIMS['C12'] = dict(
+    category='proof',
+    text="Atoms.replicate is executed symbolically for an arbitrary atom, an arbitrary 3x3 cell and symbolic positive factors, with copy / "
+         "extend / the image enumeration under contract: proved that the new cell rows are a*A, b*B, c*C for any cell shape (the pre-fix "
+         "column scaling is refuted), that the body of the image loop appends to the result a fresh copy of the original translated by "
+         "exactly i*A + j*B + k*C for the enumerated multiplier, with shared type ids given as one zero offset per term kind (the pre-fix "
+         "4-tuple is refuted) and no identity map, and that the original object is never modified. The effect of extend on each image is "
+         "C11's contract. 360 replications on the real code (4 cells incl. arbitrarily oriented, unequal factors, impropers, extra fields) "
+         "check the assembled result.",
+    note="Assumed: the numpy meshgrid/reshape/mask composite enumerates every multiplier triple except zero once; A2, A4; extend's contract.",
+    technique='contract-based deductive verification (symbolic execution with callee contracts, real arithmetic, z3) + bounded replication checks')
